@@ -35,24 +35,25 @@ def fn_paths(F):
     return sorted(p for p, b in F.bodies.items() if b.get('kind') in FN_KINDS)
 
 
-def _ren(x, loff, boff, term=False):
-    """renumber locals (place 'l', index 'ix') and, inside terminators, block ids"""
+def _ren(x, loff, boff, term=False, lmap=None):
+    """renumber locals (place 'l', index 'ix') and, inside terminators, block ids; lmap: callee local -> caller local
+    for the locals that are not simply shifted (coroutine environment, resume argument)"""
     if isinstance(x, dict):
         out = {}
         for k, v in x.items():
             if k == 'l' and isinstance(v, int):
-                out[k] = v + loff
+                out[k] = lmap[v] if lmap and v in lmap else v + loff
             elif k == 'ix' and isinstance(v, int):
-                out[k] = v + loff
+                out[k] = lmap[v] if lmap and v in lmap else v + loff
             elif term and k in BLOCK_KEYS and isinstance(v, int) and not isinstance(v, bool):
                 out[k] = v + boff
             elif term and k == 'ts':
                 out[k] = [[a, b + boff] for (a, b) in v]
             else:
-                out[k] = _ren(v, loff, boff, False) if not (term and k in ('args', 'd', 'p', 'v', 'ra', 'c', 'idx', 'len')) else _ren(v, loff, boff, False)
+                out[k] = _ren(v, loff, boff, False, lmap)
         return out
     if isinstance(x, list):
-        return [_ren(y, loff, boff, False) for y in x]
+        return [_ren(y, loff, boff, False, lmap) for y in x]
     return x
 
 
@@ -93,14 +94,94 @@ def _inline_site(caller, site, callee):
     return True
 
 
+def _awaitee_local(body, operand, depth=0):
+    """the local that holds the future polled through `operand` (Pin::new_unchecked(&mut *&mut awaitee))"""
+    pl = operand.get('mv') or operand.get('cp') if isinstance(operand, dict) else None
+    if pl is None or depth > 6:
+        return None
+    l = pl['l']
+    defs = []
+    for blk in body['blocks']:
+        for st in blk['s']:
+            d = st.get('d')
+            if d and d.get('l') == l and 'p' not in d:
+                defs.append(('s', st['r']))
+        t = blk['t']
+        if t['k'] == 'call' and t['d'].get('l') == l and 'p' not in t['d']:
+            defs.append(('c', t))
+    if len(defs) != 1:
+        return None
+    kind, r = defs[0]
+    if kind == 'c':
+        if (r.get('fn') or '').endswith('Pin::<Ptr>::new_unchecked') or strip_generics(r.get('fn') or '').endswith('Pin::new_unchecked'):
+            return _awaitee_local(body, r['args'][0], depth + 1)
+        return None
+    if r['k'] == 'ref':
+        base = r['p']
+        if 'p' not in base or not base['p']:
+            return base['l']                              # &mut awaitee
+        if base['p'] == ['*']:
+            return _awaitee_local(body, {'mv': {'l': base['l']}}, depth + 1)   # &mut *r
+        return None
+    if r['k'] == 'use':
+        return _awaitee_local(body, r['a'], depth + 1)
+    return None
+
+
+def _inline_poll_site(caller, site, callee):
+    """Replace `p = Future::poll(pin(&mut awaitee), cx)` — where the awaitee is the coroutine of a new async fn — by the
+    coroutine's body: its environment `_1` is the awaitee, its resume argument `_2` the caller's, its `return v` becomes
+    `p = Poll::Ready(v)` followed by the original continuation (the Pending arm then is unreachable for the
+    path-sensitive reachability)."""
+    t = caller['blocks'][site]['t']
+    aw = _awaitee_local(caller, t['args'][0])
+    if aw is None or len(caller['locals']) < 3 or 'ResumeTy' not in caller['locals'][2].get('ty', ''):
+        return False
+    L = len(caller['locals'])
+    B = len(caller['blocks'])
+    for l in callee['locals']:
+        nl = dict(l)
+        nl['inl'] = callee['qpath']
+        caller['locals'].append(nl)
+    lmap = {1: aw, 2: 2}
+    ln = t.get('ln', 0)
+    cont, unwind, dest = t.get('t'), t.get('u'), t['d']
+    for blk in callee['blocks']:
+        nb = {'s': [_ren(st, L, B, False, lmap) for st in copy.deepcopy(blk['s'])], 't': _ren(copy.deepcopy(blk['t']), L, B, True, lmap)}
+        for st in nb['s']:
+            st['inl'] = callee['qpath']
+            st['fl'] = callee['file']
+        if blk.get('cl'):
+            nb['cl'] = blk['cl']
+        k = nb['t']['k']
+        tl = nb['t'].get('ln', ln)
+        if k == 'return':
+            nb['s'].append({'d': dest, 'r': {'k': 'agg', 'ak': 'adt', 'adt': 'core::task::poll::Poll', 'var': 'Ready', 'dv': 0, 'fn': ['0'], 'ops': [{'mv': {'l': L}}]},
+                            'ln': ln, 'inl': callee['qpath']})
+            nb['t'] = {'k': 'goto', 't': cont, 'ln': ln} if cont is not None else {'k': 'unreachable', 'ln': tl}
+        elif k == 'resume':
+            nb['t'] = {'k': 'goto', 't': unwind, 'ln': tl} if unwind is not None else {'k': 'resume', 'ln': tl}
+        elif k == 'coroutine_drop':
+            nb['t'] = {'k': 'unreachable', 'ln': tl}
+        nb['t']['fl'] = callee['file']
+        nb['t']['inl'] = callee['qpath']
+        caller['blocks'].append(nb)
+    caller['blocks'][site]['t'] = {'k': 'goto', 't': B, 'ln': ln}
+    caller.setdefault('inlined', []).append(callee['qpath'])
+    return True
+
+
 def inline_new_functions(F, baseline=None):
     """mutates F.bodies; returns {helper path: [callers]} for the evidence"""
     baseline = baseline if baseline is not None else load_baseline()
     new = {p for p, b in F.bodies.items()
            if b.get('kind') in FN_KINDS and p not in baseline and not b.get('coroutine') and not b['crate'].startswith('bin:')
            and '::tests::' not in p and len(b['blocks']) <= MAX_BLOCKS
-           # an `async fn`: its body only builds the coroutine; the caller awaits it (handled by summaries, not inlining)
-           and not (F.bodies.get(p + '::{closure#0}') or {}).get('coroutine')}
+           }
+    # `async fn`s among them: the shell (which only builds the coroutine) is inlined like any function; the coroutine
+    # body is inlined where the caller polls it (an `.await`)
+    new_async = {p + '::{closure#0}' for p in new if (F.bodies.get(p + '::{closure#0}') or {}).get('coroutine')}
+    F.inlined_bodies = {}
     if not new:
         return {}
     norm = {}
@@ -133,6 +214,41 @@ def inline_new_functions(F, baseline=None):
                     changed = True
         if not changed:
             break
+    if new_async:
+        pristine_co = {q: copy.deepcopy(F.bodies[q]) for q in new_async if len(F.bodies[q]['blocks']) <= 4 * MAX_BLOCKS}
+        for _round in range(MAX_ROUNDS):
+            changed = False
+            for p, b in list(F.bodies.items()):
+                if '::tests::' in p or not b.get('coroutine'):
+                    continue
+                for bi in range(len(b['blocks'])):
+                    blk = b['blocks'][bi]
+                    t = blk['t']
+                    if t['k'] != 'call' or blk.get('cl') or not (t.get('fn') or '').endswith('Future::poll'):
+                        continue
+                    q = t.get('res')
+                    if q not in pristine_co or q == p:
+                        continue
+                    if _inline_poll_site(b, bi, pristine_co[q]):
+                        report.setdefault(q, []).append(p)
+                        changed = True
+            if not changed:
+                break
+    # a coroutine body all of whose poll sites were expanded, and whose shell is gone, is no unit of its own any more
+    def _drop_inlined_coroutines():
+        polled = set()
+        for p, b in F.bodies.items():
+            for blk in b['blocks']:
+                t = blk['t']
+                if t['k'] == 'call' and (t.get('fn') or '').endswith('Future::poll') and t.get('res') in new_async:
+                    polled.add(t['res'])
+        for q in list(new_async):
+            shell = q[:-len('::{closure#0}')]
+            if q in report and q not in polled and shell not in F.bodies and q in F.bodies:
+                b = F.bodies[q]
+                F.inlined_bodies[q] = b
+                del F.bodies[q]
+                F.by_crate[b['crate']] = [x for x in F.by_crate[b['crate']] if x is not b]
     # drop helpers that are fully inlined and cannot be reached from outside the workspace
     still_called = set()
     for p, b in F.bodies.items():
@@ -152,12 +268,17 @@ def inline_new_functions(F, baseline=None):
                     for o in ([r.get('a'), r.get('b')] + list(r.get('ops', []))):
                         if isinstance(o, dict) and 'fn' in o and strip_generics(o['fn']) in norm:
                             still_called.add(norm[strip_generics(o['fn'])])
+    F.inlined_bodies = {q: pristine[q] for q in report if q in pristine}     # the helpers as written (for rules about the helper as a unit)
     for q in list(report):
+        if q not in pristine:
+            continue        # coroutine bodies stay in the fact base
         b = F.bodies.get(q)
         if b is not None and q not in still_called and not b.get('exported'):
             del F.bodies[q]
             F.by_crate[b['crate']] = [x for x in F.by_crate[b['crate']] if x is not b]
             # nested closures of the removed helper stay: they are referenced from the inlined aggregate statements
+    if new_async:
+        _drop_inlined_coroutines()
     return report
 
 
